@@ -10,7 +10,7 @@
 (* the tokens partition the source and that every position is exact.          *)
 EXTENDS Lexer, Seed, Json, FiniteSets
 
-CONSTANTS NFrag, Stride
+CONSTANTS NFrag, Stride, ELen
 VARIABLES v_lvl, v_idx, v_st
 
 Frags == <<
@@ -31,10 +31,24 @@ TotalF == BaseF(NFrag) + PowF(NFrag)
 NOfIdx(j) == CHOOSE n \in 1..NFrag : BaseF(n) <= j /\ j < BaseF(n) + PowF(n)
 RECURSIVE CatFrags(_, _)
 CatFrags(code, n) == IF n = 0 THEN <<>> ELSE Frags[(code % NF) + 1] \o CatFrags(code \div NF, n - 1)
-FullSrc(j) == LET n == NOfIdx(j) IN CatFrags(j - BaseF(n), n)
+(* second family: inside a print, every sequence of up to ELen string/interpolation fragments (quotes nested in
+   interpolations nested in quotes ...), with and without the closing delimiter *)
+EFrags == << S2B("\""), S2B("#{"), S2B("}"), S2B(" "), S2B("x"), S2B("'") >>
+NE == Len(EFrags)
+RECURSIVE PowE(_)
+PowE(n) == IF n = 0 THEN 1 ELSE NE * PowE(n - 1)
+RECURSIVE BaseE(_)
+BaseE(n) == IF n = 1 THEN 0 ELSE BaseE(n - 1) + PowE(n - 1)
+TotalE == IF ELen = 0 THEN 0 ELSE BaseE(ELen) + PowE(ELen)
+RECURSIVE CatE(_, _)
+CatE(code, n) == IF n = 0 THEN <<>> ELSE EFrags[(code % NE) + 1] \o CatE(code \div NE, n - 1)
+ESrc(e) == LET n == CHOOSE m \in 1..ELen : BaseE(m) <= e /\ e < BaseE(m) + PowE(m) IN <<123, 123>> \o CatE(e - BaseE(n), n) \o <<125, 125>>
+FullSrc(j) == IF j >= TotalF THEN ESrc(j - TotalF) ELSE LET n == NOfIdx(j) IN CatFrags(j - BaseF(n), n)
+PrefixLens(j) == IF j >= TotalF THEN {Len(FullSrc(j)) - 2, Len(FullSrc(j))} ELSE 1..Len(FullSrc(j))
 
 Small == IF NFrag >= 3 THEN BaseF(3) ELSE TotalF
 PickedIdx == (0..(Small - 1)) \cup {Small + SeedMod(Stride) + Stride * m : m \in 0..((TotalF - Small - 1 - SeedMod(Stride)) \div Stride)}
+             \cup (TotalF..(TotalF + TotalE - 1))
 
 (* v_lvl 0: root; 1: chunk; 2: a source chosen (v_idx = <<index, prefix length>>), lexer running *)
 Init == v_lvl = 0 /\ v_idx = <<0, 0>> /\ v_st = InitLex(<<>>)
@@ -42,7 +56,7 @@ Src == SubSeq(FullSrc(v_idx[1]), 1, v_idx[2])
 Next ==
   \/ /\ v_lvl = 0 /\ v_lvl' = 1 /\ \E c \in 0..63 : v_idx' = <<c, 0>> /\ UNCHANGED v_st
   \/ /\ v_lvl = 1 /\ v_lvl' = 2
-     /\ \E j \in {q \in PickedIdx : q % 64 = v_idx[1]} : \E p \in 1..Len(FullSrc(j)) :
+     /\ \E j \in {q \in PickedIdx : q % 64 = v_idx[1]} : \E p \in PrefixLens(j) :
           /\ v_idx' = <<j, p>>
           /\ v_st' = InitLex(SubSeq(FullSrc(j), 1, p))
   \/ /\ v_lvl = 2 /\ v_st.fn # "stop" /\ v_st.steps <= 4 * Len(Src) + 8
